@@ -199,6 +199,17 @@ theorem stream_truncated_wrong_question_is_error (qid hdr : Nat) (qq : Question)
     exchange false qid (some qq) (⟨false, qid, qs, hdr⟩ :: t) = (XRes.errQuestion, 1) :=
   wrong_question_is_error false qid qq ⟨false, qid, qs, hdr⟩ t rfl rfl hq
 
+/-- No transaction ID has a special standing on a stream — not 0 (what a DoH
+gateway normalises to), not 0xffff: unless it equals the query's, the reply is
+`dns.ErrId` whatever else it carries. -/
+theorem stream_special_id_is_error (qid id hdr : Nat) (q : Option Question) (qs : List Question)
+    (t : List Cand) (hne : id ≠ qid) :
+    exchange false qid q (⟨false, id, qs, hdr⟩ :: t) = (XRes.errId, 1) :=
+  stream_wrong_id_is_error qid q ⟨false, id, qs, hdr⟩ t rfl hne
+
+example : exchange false 4711 (some ⟨"mail.victim.test.".toList, 1, 1⟩)
+    [⟨false, 0, [⟨"mail.victim.test.".toList, 1, 1⟩], 0⟩] = (XRes.errId, 1) := by decide
+
 -- non-vacuity: two stray datagrams (wrong id; right id comes third, case differs) — the third is returned
 example : exchange true 7 (some ⟨"www.victim.test.".toList, 1, 1⟩)
     [⟨false, 8, [⟨"www.victim.test.".toList, 1, 1⟩], 0⟩, ⟨false, 6, [], 0⟩,
@@ -820,7 +831,8 @@ zone in an unconditional top-level statement (guarded by `zone != ""` only)
 that precedes the splice of a DNAME target's separately resolved answer; every
 write to `rs.level` is the label count of the zone now asked
 (`resolveWithCachedNameservers`, `processDelegation`) or an increment under a
-`minimized` condition. -/
+`minimized` condition; both name-server address lookups (`lookupNSAddrV4`,
+`lookupNSAddrV6`) take their addresses from `searchAddrs` and build none themselves. -/
 theorem guards_are_wired :
     SdnsVerif.Gen.C07.shape_delegation_guard_first = true ∧
     SdnsVerif.Gen.C07.shape_lookup_applies_rule = true ∧
@@ -828,7 +840,8 @@ theorem guards_are_wired :
     SdnsVerif.Gen.C07.shape_exchange_checks_question = true ∧
     SdnsVerif.Gen.C07.shape_store_filters_before_entry = true ∧
     SdnsVerif.Gen.C07.shape_answer_filters_before_splice = true ∧
-    SdnsVerif.Gen.C07.shape_level_is_zone_depth = true := by decide
+    SdnsVerif.Gen.C07.shape_level_is_zone_depth = true ∧
+    SdnsVerif.Gen.C07.shape_nsaddr_lookups_use_searchAddrs = true := by decide
 
 /-- The compiled `usableAddr` rejects every loopback probe (127.0.0.1 in both
 spellings, the ends of 127/8, ::1) and every address of every local interface,
